@@ -85,6 +85,7 @@ EditDeleteField(m, f) ==
     /\ m \in DOMAIN new /\ f \in DOMAIN new[m].fields /\ f # "id"
     /\ (\A i \in 1..Len(new[m].ut) : ~InSeq(f, new[m].ut[i]))
     /\ (\A i \in 1..Len(new[m].idx) : ~InSeq(f, new[m].idx[i].fields))
+    /\ (\A i \in 1..Len(It(new[m])) : ~InSeq(f, It(new[m])[i]))
     /\ (\A i \in 1..Len(new[m].cons) : ~InSeq(f, new[m].cons[i].fields) /\ new[m].cons[i].cond # f)
     /\ Step([new EXCEPT ![m].fields = Drop(@, f)])
 EditRetype(m, f) ==
@@ -113,6 +114,12 @@ EditUniqueTogether(m) ==
           v # new[m].ut
           /\ (\A i \in 1..Len(v) : SeqSet(v[i]) \subseteq DOMAIN new[m].fields)
           /\ Step([new EXCEPT ![m].ut = v])
+EditIndexTogether(m) ==
+    /\ m \in DOMAIN new
+    /\ \E v \in { <<>>, << <<"f", "g">> >>, << <<"g", "f">> >>, << <<"f", "g">>, <<"g", "f">> >> } :
+          v # It(new[m])
+          /\ (\A i \in 1..Len(v) : SeqSet(v[i]) \subseteq DOMAIN new[m].fields)
+          /\ Step([new EXCEPT ![m] = WithIt(@, v)])
 EditIndexes(m) ==
     /\ m \in DOMAIN new
     /\ \E v \in { <<>>, << Idx("ix1", <<"f">>) >>, << Idx("ix2", <<"g">>), Idx("ix1", <<"f">>) >>,
@@ -139,6 +146,7 @@ EditRetarget(m, f) ==
 Next == /\ edits < MaxEdits
         /\ \E m \in ModelNames :
               \/ EditUniqueTogether(m) \/ EditIndexes(m) \/ EditConstraints(m) \/ EditDeleteModel(m)
+              \/ EditIndexTogether(m)
               \/ \E f \in FieldNames :
                     \/ EditAddField(m, f) \/ EditDeleteField(m, f) \/ EditRetype(m, f)
                     \/ EditAttr(m, f) \/ EditMaxLength(m, f) \/ EditExplicitDefault(m, f)
@@ -158,6 +166,7 @@ MetaChanged(n, o) ==
     (IF UTChanged(o, n) THEN {"unique_together"} ELSE {})
     \cup (IF n.idx # o.idx THEN {"indexes"} ELSE {})
     \cup (IF n.cons # o.cons THEN {"constraints"} ELSE {})
+    \cup (IF It(n) # It(o) THEN {"index_together"} ELSE {})
 
 RECURSIVE SetToSeq(_)
 SetToSeq(S) == IF S = {} THEN <<>> ELSE LET x == CHOOSE y \in S : TRUE IN <<x>> \o SetToSeq(S \ {x})
@@ -200,6 +209,10 @@ ModelHint(mn, n, o) ==
            ELSE <<>>)
        \o (IF "indexes" \in mc
            THEN <<[Blank EXCEPT !.k = "Meta", !.m = mn, !.prop = "indexes", !.ival = n.idx]>>
+           ELSE <<>>)
+       \* Diff.evolution(): index_together before unique_together
+       \o (IF "index_together" \in mc
+           THEN <<[Blank EXCEPT !.k = "Meta", !.m = mn, !.prop = "index_together", !.val = It(n)]>>
            ELSE <<>>)
        \o (IF "unique_together" \in mc
            THEN <<[Blank EXCEPT !.k = "Meta", !.m = mn, !.prop = "unique_together", !.val = n.ut]>>
